@@ -269,6 +269,11 @@ type BlockSpec struct {
 	BadCommit bool `json:"bad_commit"` // the committed block itself has a wrong commitment
 	FutureTS  bool `json:"future_ts"`  // header timestamp a day ahead
 	NoScripts bool `json:"no_scripts"` // only OP_RETURN outputs: empty basic filter
+	// SpendPrev: the first input of the first non-coinbase transaction spends
+	// output 0 of the previous block's coinbase, and the block's honest filter
+	// contains that output's script (a real spend: the filter is not a
+	// function of the block alone).
+	SpendPrev bool `json:"spend_prev,omitempty"`
 }
 
 // SetCommitment (re)computes the witness commitment output of a segwit
@@ -392,6 +397,28 @@ func BuildChain(r *rand.Rand, specs []BlockSpec, ftip int, poisoned map[int]bool
 		var prevScripts [][]byte
 		for j := 0; j < sp.NTx && !sp.NoScripts; j++ {
 			prevScripts = append(prevScripts, RandScript(r))
+		}
+		if sp.SpendPrev && sp.NTx > 0 && !sp.NoScripts {
+			pcb := c.Blocks[h-1].Transactions[0]
+			ptx := pcb.TxHash()
+			b.Transactions[1].TxIn[0].PreviousOutPoint = *wire.NewOutPoint(&ptx, 0)
+			if sp.Segwit {
+				SetCommitment(b)
+				if sp.BadCommit {
+					cbo := b.Transactions[0].TxOut
+					cbo[len(cbo)-1].PkScript[10] ^= 0x55
+				}
+			}
+			b.Header.Nonce = 0
+			Solve(b)
+			c.Hashes[h] = HeaderHash(&b.Header)
+			if ps := pcb.TxOut[0].PkScript; len(ps) > 0 {
+				if len(prevScripts) > 0 {
+					prevScripts[0] = ps
+				} else {
+					prevScripts = append(prevScripts, ps)
+				}
+			}
 		}
 		f, err := builder.BuildBasicFilter(b, prevScripts)
 		if err != nil {
@@ -529,6 +556,10 @@ type EnvConfig struct {
 	BlockCacheSize  uint64
 	Persist         bool
 	Ticker          time.Duration
+	// WrapDB, if set, wraps the opened walletdb before it is handed to the
+	// service (header indexes, filter database, ban store); Env.DB stays
+	// the unwrapped database.
+	WrapDB func(walletdb.DB) walletdb.DB
 }
 
 // Open opens a skeleton on a (copied) template directory.
@@ -538,8 +569,12 @@ func Open(dir string, cfg EnvConfig) *Env {
 		panic(err)
 	}
 	e := &Env{DB: db, Dir: dir, WM: &ScriptWM{}}
+	sdb := db
+	if cfg.WrapDB != nil {
+		sdb = cfg.WrapDB(db)
+	}
 	cs, err := neutrino.VerifNewQueryService(neutrino.VerifQueryConfig{
-		DataDir: dir, Database: db, ChainParams: Params,
+		DataDir: dir, Database: sdb, ChainParams: Params,
 		FilterCacheSize: cfg.FilterCacheSize, BlockCacheSize: cfg.BlockCacheSize,
 		PersistToDisk: cfg.Persist, DBWritesTicker: cfg.Ticker, WorkManager: e.WM,
 		WrapFilterDB: func(f filterdb.FilterDatabase) filterdb.FilterDatabase {
